@@ -11,7 +11,7 @@ From Coq Require Import NArith List String Bool Lia.
 From HW Require Import Word Packet Portable Spec X86 Wasm.
 From HW.Facts Require Import RustLite.
 From HWGen Require Import SrcPortable SrcPacket SrcWasmFull.
-From HW.Refine Require Import Logical Codec PortableRefine StreamRefine WasmRefine SourceTie SourceTieWasmFull SourceTieWasmBytes.
+From HW.Refine Require Import Logical Codec PortableRefine PortableCodec StreamRefine Generic WasmRefine SourceTie SourceTieCkpt SourceTieWasmFull SourceTieWasmBytes SourceTieWasmCkpt.
 From HW.Properties Require Import SourceLevel.
 Import ListNotations.
 Local Open Scope N_scope.
@@ -124,6 +124,63 @@ Corollary SRCW_source_agrees_with_portable_source : forall p p' w k0 k1 k2 k3 ds
   wsrc_hash p w (k0,k1,k2,k3) ds = src_hash p' w (k0,k1,k2,k3) ds.
 Proof. intros. rewrite SRCW_source_is_highwayhash by assumption. rewrite SRC_source_is_highwayhash. reflexivity. Qed.
 
+(* ---- checkpoints, at the level of the source text of wasm.rs *)
+(* C14: the 164 bytes are encode of the logical state — hence the same bytes the interpreted portable.rs produces for a state with
+   the same logical state (C03/C06: checkpoints are interchangeable between backends) *)
+Theorem SRCW_source_checkpoint_canonical : forall p s, WInv s ->
+  ret_of' (wcall p 9 "WasmHash::checkpoint" (wgenv_of (w_core s) (w_buffer s)) []) = Ok (Some (VA (encode (wabs s)))).
+Proof.
+  intros p s HI.
+  change (call_fn p (wext p) wall_fns 9 "WasmHash::checkpoint"%string ?g ?a) with (call_fn p (wext p) wall_fns (S (S (S 6))) "WasmHash::checkpoint"%string g a).
+  rewrite (w_checkpoint_src p 6 (w_core s) (w_buffer s) (WInv_wfp s HI)).
+  replace {| w_core := w_core s; w_buffer := w_buffer s |} with s by (destruct s; reflexivity).
+  rewrite (w_checkpoint_ok p s HI). reflexivity.
+Qed.
+
+Corollary SRCW_source_checkpoint_interchangeable : forall p p' ws s, WInv ws -> Inv s -> wabs ws = abs s ->
+  ret_of' (wcall p 9 "WasmHash::checkpoint" (wgenv_of (w_core ws) (w_buffer ws)) [])
+  = ret_of' (call_fn p' noext all_fns 9 "checkpoint" (genv_of (core s) (buffer s)) []).
+Proof.
+  intros p p' ws s HW HI E. rewrite (SRCW_source_checkpoint_canonical p ws HW), (SRC_source_checkpoint_canonical p' s HI), E. reflexivity.
+Qed.
+
+(* C11: ANY 164 bytes restore, in every profile, to a state in the invariant whose logical state is decode of the bytes *)
+Theorem SRCW_source_restore_total : forall p c0 b0 c, List.length c = 164%nat -> wbytesb c = true ->
+  exists s', wcall p 9 "WasmHash::from_checkpoint" (wgenv_of c0 b0) [VA c] = Ok (wgenv_of (w_core s') (w_buffer s'), [Some (VA c)], None) /\
+             WInv s' /\ wabs s' = decode c.
+Proof.
+  intros p c0 b0 c Hc Hb.
+  change (call_fn p (wext p) wall_fns 9 "WasmHash::from_checkpoint"%string ?g ?a)
+    with (call_fn p (wext p) wall_fns (S (S (S (S (S (S 3)))))) "WasmHash::from_checkpoint"%string g a).
+  rewrite (w_from_checkpoint_src p 3 c0 b0 c Hc).
+  destruct (w_restore_ok p c Hb) as (s' & E & HI & A). exists s'. rewrite E. cbn [lift]. split; [reflexivity|]. split; assumption.
+Qed.
+
+(* C06: checkpoint, restore (into any hasher value), and carry on — same results as carrying on directly *)
+Definition wsrc_hop (p : profile) (g g0 : env) : res env :=
+  do o <- ret_of' (wcall p 9 "WasmHash::checkpoint" g []) ;;
+  match o with
+  | Some (VA ck) => do r <- wcall p 9 "WasmHash::from_checkpoint" g0 [VA ck] ;; Ok (fst (fst r))
+  | _ => Fault
+  end.
+
+Theorem SRCW_source_checkpoint_transparent : forall p w s c0 b0 ds, WInv s -> all_bytes ds = true ->
+  (do g' <- wsrc_hop p (wgenv_of (w_core s) (w_buffer s)) (wgenv_of c0 b0) ;; do g <- wsrc_feed p g' ds ;; wsrc_finish p w g)
+  = (do g <- wsrc_feed p (wgenv_of (w_core s) (w_buffer s)) ds ;; wsrc_finish p w g).
+Proof.
+  intros p w s c0 b0 ds HI HB. unfold wsrc_hop.
+  rewrite (SRCW_source_checkpoint_canonical p s HI). cbn [bind].
+  assert (HL : Lwf (wabs s)).
+  { destruct HI as [_ [[Hl Hi] _]]. unfold Lwf, wabs, pending. cbn [snd]. rewrite firstn_length. lia. }
+  assert (HH : Hwf (fst (wabs s))) by (apply WCwf_Hwf; exact (proj1 HI)).
+  assert (Hpb : wbytesb (snd (wabs s)) = true).
+  { destruct HI as [_ [_ Hb]]. unfold wabs, pending. cbn [snd]. apply wbytesb_firstn. exact Hb. }
+  destruct (SRCW_source_restore_total p c0 b0 (encode (wabs s)) (encode_length _ HL) (encode_wb _ Hpb)) as (s' & E & HI' & A).
+  rewrite E. cbn [bind fst].
+  rewrite (SRCW_source_continue p w s' ds HI' HB), (SRCW_source_continue p w s ds HI HB), A.
+  rewrite (decode_encode (wabs s) HL HH). reflexivity.
+Qed.
+
 (* non-vacuity: a published vector through three appends, run by the interpreter on the translated wasm.rs *)
 Example SRCW_source_vector :
   wsrc_hash prof_dev W64 (0x0706050403020100, 0x0F0E0D0C0B0A0908, 0x1716151413121110, 0x1F1E1D1C1B1A1918) [[0]; []; [1; 2]]
@@ -134,3 +191,7 @@ Print Assumptions SRCW_source_continue.
 Print Assumptions SRCW_source_is_highwayhash.
 Print Assumptions SRCW_source_streaming_invariance.
 Print Assumptions SRCW_source_agrees_with_portable_source.
+Print Assumptions SRCW_source_checkpoint_canonical.
+Print Assumptions SRCW_source_checkpoint_interchangeable.
+Print Assumptions SRCW_source_restore_total.
+Print Assumptions SRCW_source_checkpoint_transparent.
